@@ -77,7 +77,7 @@ def run(prop, mod, tier, seed, replay, log, broken, workdir, t0):
                 modelrun = core.build_extraction(log)
             except Broken as b:
                 broken.append((b.which, b.detail))
-        harness = core.build_harness(log)
+        harness = core.build_harness(log, race=getattr(mod, "HARNESS_RACE", False))
         if getattr(mod, "NEEDS_BINARY", False):
             core.build_rdpgw(log)
 
